@@ -9,7 +9,26 @@ static EPOCH: OnceLock<Instant> = OnceLock::new();
 /// Monotonic milliseconds since first call. Safe to use for deadline arithmetic.
 #[must_use]
 pub fn now_ms() -> u64 {
+    #[cfg(feature = "verif-hooks")]
+    if let Some(v) = verif_clock::get() {
+        return v;
+    }
     EPOCH.get_or_init(Instant::now).elapsed().as_millis() as u64
+}
+
+/// Verification hook: per-thread virtual clock for `now_ms()` (feature `verif-hooks`).
+#[cfg(feature = "verif-hooks")]
+pub mod verif_clock {
+    use std::cell::Cell;
+    thread_local! {
+        static VIRTUAL_NOW_MS: Cell<Option<u64>> = const { Cell::new(None) };
+    }
+    pub fn set(v: Option<u64>) {
+        VIRTUAL_NOW_MS.with(|c| c.set(v));
+    }
+    pub fn get() -> Option<u64> {
+        VIRTUAL_NOW_MS.with(|c| c.get())
+    }
 }
 
 /// Initializes the monotonic clock epoch. Call once at engine startup to avoid
